@@ -70,7 +70,9 @@ type Op struct {
 	N   int    `json:"n,omitempty"`
 	// Reuse (row): the handler keeps one []any of pointers to its own variables
 	// for consecutive rows, assigns the variables and hands the same slice to Row
-	Reuse bool     `json:"reuse,omitempty"`
+	Reuse bool `json:"reuse,omitempty"`
+	// Quiet (binrows): rows are counted, not recorded one by one (very long streams)
+	Quiet bool     `json:"quiet,omitempty"`
 	Err   *ErrSpec `json:"err,omitempty"`
 	OIDs  []uint32 `json:"oids,omitempty"`
 }
@@ -88,6 +90,8 @@ type ErrSpec struct {
 	SrcFunc    string `json:"srcfunc,omitempty"`
 	Constraint string `json:"constraint,omitempty"`
 	Order      string `json:"order,omitempty"` // letters: c s h d o(source) n(constraint) w(wrap)
+	// Join: the error is errors.Join(this, Join...) - several causes, one failure
+	Join []*ErrSpec `json:"join,omitempty"`
 }
 
 // Build constructs the Go error.
@@ -129,6 +133,13 @@ func (e *ErrSpec) Build() error {
 		case 'w':
 			err = fmt.Errorf("ctx: %w", err)
 		}
+	}
+	if len(e.Join) > 0 {
+		all := []error{err}
+		for _, j := range e.Join {
+			all = append(all, j.Build())
+		}
+		err = errors.Join(all...)
 	}
 	return err
 }
@@ -662,14 +673,25 @@ func (rt *Runtime) runStmt(ctx context.Context, key string, idx int, sp *StmtPro
 				c.rec("op", fmt.Sprintf("%d binrows-new err", oi))
 				continue
 			}
-			for n := 0; n < 100000; n++ {
+			for n := 0; n < 100000 || op.Quiet; n++ {
 				row, err := br.Read(ctx)
 				last = err
 				if err != nil {
-					c.rec("op", fmt.Sprintf("%d binrow %s", oi, errClass(err)))
+					if op.Quiet {
+						c.rec("op", fmt.Sprintf("%d binrows quiet: %d rows then %s", oi, n, errClass(err)))
+					} else {
+						c.rec("op", fmt.Sprintf("%d binrow %s", oi, errClass(err)))
+					}
 					break
 				}
-				c.rec("op", fmt.Sprintf("%d binrow row %s", oi, canonRow(row, sp.Cols)))
+				if !op.Quiet {
+					c.rec("op", fmt.Sprintf("%d binrow row %s", oi, canonRow(row, sp.Cols)))
+				} else if c.cc.MeasureLive && n%10000 == 9999 {
+					// what the reader holds in the middle of a long stream
+					st, hp := readLive()
+					c.LiveStack = append(c.LiveStack, st)
+					c.LiveHeap = append(c.LiveHeap, hp)
+				}
 			}
 		case "params":
 			var sb strings.Builder
